@@ -128,6 +128,44 @@ def gen_session(rng, cfg, length, wild):
     return ops[:length + 4]
 
 
+def gen_flash_session(rng, cfg, length):
+    """a client that flashes: Start Flash at a white-listed address, data writes of every size, the
+    handler's end_flash (only for pages that were flashed) and the progress notifications, Flush,
+    restarts after the outstanding pages are done; refused writes (no free buffer) are part of it"""
+    c = CONFIGS[cfg]
+    page = c["page"]
+    ops = ["reset %d" % cfg]
+    pos, flashed, ended = None, 0, 0
+    while len(ops) < length:
+        r = rng.random()
+        if pos is None or r < 0.05:
+            while ended < flashed:
+                ops += ["endflash", "output", "output"]
+                ended += 1
+            s, e = rng.choice(c["regions"])
+            pos = rng.choice([s, s + 1, e - 1, e - page, rng.randrange(s, e), rng.randrange(s, e)])
+            ops.append("ctrl " + hexs([3] + addr(pos)))
+            if rng.random() < 0.7:
+                ops.append("output")
+        elif r < 0.70:
+            n = rng.choice([1, 2, 5, 13, 16, 19, 20, 20, 20, 20])
+            ops.append("data " + hexs([rng.randrange(256) for _ in range(n)]))
+            flashed += (pos + n) // page - pos // page
+            pos += n
+        elif r < 0.88:
+            if ended < flashed:
+                ops.append("endflash")
+                ended += 1
+            ops.append("output")
+        elif r < 0.94:
+            ops += ["ctrl 05", "output"]
+            if pos % page:
+                flashed += 1
+        else:
+            ops.append("output")
+    return ops
+
+
 def inside(cfg, a, n):
     return any(s <= a and a + n <= e for s, e in CONFIGS[cfg]["regions"])
 
@@ -338,7 +376,10 @@ def run_c39(ctx, replay_path=None):
     sessions = [ops for _, ops in corpus]
     n = 5000 if ctx.thorough else 500
     for i in range(n):
-        sessions.append(gen_session(ctx.rng, i % 3, ctx.rng.randrange(6, 50 if i % 3 != 2 else 130), wild=(i % 4 == 3)))
+        if i % 5 == 4:
+            sessions.append(gen_flash_session(ctx.rng, i % 3, ctx.rng.randrange(10, 60 if i % 3 != 2 else 400)))
+        else:
+            sessions.append(gen_session(ctx.rng, i % 3, ctx.rng.randrange(6, 50 if i % 3 != 2 else 130), wild=(i % 4 == 3)))
     impl, model, dis = ctx.run_pair(sessions, proj)
     for d in dis:
         ops = sessions[d["session"]]
